@@ -14,7 +14,7 @@
                      1011 the reference semantics was undefined at every sample point
    ADVAN/TRANS streams ([verdict_adv]): see below. *)
 From Coq Require Import QArith List Bool PArith Arith.
-From PV Require Import Base.PyData Base.Expr Base.Interp Base.Stmts C01.Model C01.Parser.
+From PV Require Import Base.PyData Base.Expr Base.Interp Base.Stmts C01.Model C01.Parser C01.Des.
 Import ListNotations.
 Local Open Scope nat_scope.
 
@@ -317,6 +317,8 @@ Definition verdict_oform (c : ocase) : list nat :=
 Record dcase := mkDCase {
   d_toks : list tok;
   d_eqs : list (id * expr);            (* (symbol standing for DADT(i), right-hand side of cs.eqs[i]) *)
+  d_lhs : list (id * id);              (* symbol standing for DADT(i) -> amount A_i *)
+  d_flows : list (id * id * expr);     (* cs.get_flow: (amount of from, amount of to or 1 for output, rate) *)
   d_envs : list (list (id * Q))
 }.
 Fixpoint des_check (b : body) (c : dcase) : list nat :=
@@ -331,8 +333,46 @@ Fixpoint des_check (b : body) (c : dcase) : list nat :=
       end ++ des_check tl c
   | BCons _ tl => [92] ++ des_check tl c
   end.
+
+(* the MODEL C01/Des.v on the parsed equations: 93 its flows differ from cs.get_flow (rates compared by
+   evaluation, pair by pair, output included);  94 the parsed equations are not sums of terms k*A;
+   295 (guard fact) des_guard is false;  96 internal: guard true but sys_rhs differs from the terms *)
+Fixpoint des_eqs_of (amts : list id) (lhs : list (id * id)) (b : body) : option (list deq) :=
+  match b with
+  | BNil => Some []
+  | BCons (NAssign x e) tl =>
+      match alookup lhs x, terms_of_expr amts true e, des_eqs_of amts lhs tl with
+      | Some a, Some ts, Some r => Some ((a, ts) :: r)
+      | _, _, _ => None
+      end
+  | BCons _ _ => None
+  end.
+Definition total_env (m : list (id * Q)) : id -> Q := fun x => match alookup m x with Some q => q | None => 0%Q end.
+Definition model_rate (rho : id -> Q) (eqs : list deq) (f t : id) : Q :=
+  if Pos.eqb t 1 then qsum (map (fun o => if Pos.eqb (fst o) f then rho (snd o) else 0%Q) (des_outs eqs))
+  else qsum (map (fun fl => let '(fr, to, k) := fl in if Pos.eqb fr f && Pos.eqb to t then rho k else 0%Q) (des_flows eqs)).
+Definition impl_rate (m : list (id * Q)) (fl : list (id * id * expr)) (f t : id) : option Q :=
+  match filter (fun x => Pos.eqb (fst (fst x)) f && Pos.eqb (snd (fst x)) t) fl with
+  | [] => Some 0%Q
+  | x :: _ => eval (env_of m) c01_fi (snd x)
+  end.
+Definition des_model_check (c : dcase) (eqs : list deq) : list nat :=
+  let amts := map snd (d_lhs c) in
+  tag (forallb (fun m =>
+         forallb (fun f => forallb (fun t =>
+           match impl_rate m (d_flows c) f t with
+           | Some v => Qeq_bool v (model_rate (total_env m) eqs f t)
+           | None => false end) (1%positive :: amts)) amts) (d_envs c)) 93 ++
+  tag (des_guard eqs) 295 ++
+  tag (negb (des_guard eqs) ||
+       forallb (fun m => forallb (fun e => Qeq_bool (sys_rhs (total_env m) (des_flows eqs) (des_outs eqs) (fst e))
+                                                     (terms_val (total_env m) (snd e))) eqs) (d_envs c)) 96.
 Definition verdict_des (c : dcase) : list nat :=
   match parse_prog (d_toks c) with
-  | Some b => des_check b c ++ tag (Nat.eqb (length (list_of_body b)) (length (d_eqs c))) 92
+  | Some b => des_check b c ++ tag (Nat.eqb (length (list_of_body b)) (length (d_eqs c))) 92 ++
+              match des_eqs_of (map snd (d_lhs c)) (d_lhs c) b with
+              | Some eqs => des_model_check c eqs
+              | None => [94]
+              end
   | None => [1091]
   end.
